@@ -132,15 +132,19 @@ class _AsyncThrottle[**Args, Result]:
             self._locks[loop] = lock
 
         async with lock:
-            time_now: float = monotonic()
-            while self._entries:  # cleanup old entries
-                if self._entries[0] + self._period <= time_now:
-                    self._entries.popleft()
+            while True:
+                time_now: float = monotonic()
+                while self._entries:  # cleanup old entries
+                    if self._entries[0] + self._period <= time_now:
+                        self._entries.popleft()
 
-                else:
+                    else:
+                        break
+
+                if len(self._entries) < self._limit:
                     break
 
-            if len(self._entries) >= self._limit:
+                # event loop is allowed to finish sleeping slightly ahead of time, verify again
                 await sleep(self._entries[0] + self._period - time_now)
 
             self._entries.append(monotonic())
